@@ -7,7 +7,9 @@
   mutants.py run <seed_id> [Cxx ...]                 apply seeded/<seed_id>/patch.diff to /repo, run the quick checks
                                                      (default: the property it breaks), undo, print and record result
 """
-import json, os, re, shutil, subprocess, sys, time
+import json, os, re, shutil, signal, subprocess, sys, time
+
+signal.signal(signal.SIGTERM, lambda *a: sys.exit(143))   # so that "finally" restores /repo when we are timed out
 
 VERIF = os.path.dirname(os.path.dirname(os.path.abspath(__file__)))
 REPO = "/repo"
